@@ -49,9 +49,18 @@ def entry_model(cn, callee, args, st, walker):
     return None
 
 
+ENTRY_VPROJ = [None]     # name of the field of the map's value struct that holds the order (None: the value is the order)
+
+
 def entry_write(st, pl, val, walker):
     root = pl[1]
-    if root[0] == "obj" and isinstance(root[1], tuple) and root[1] and root[1][0] == "entry" and not pl[2]:
+    whole = not pl[2] and ENTRY_VPROJ[0] is None
+    inner = ENTRY_VPROJ[0] is not None and len(pl[2]) == 1 and pl[2][0][0] == "f" and pl[2][0][2] == ENTRY_VPROJ[0]
+    if ENTRY_VPROJ[0] is not None and not pl[2] and isinstance(val, tuple) and val[0] == "agg":
+        # the whole wrapper replaced: the order inside it is what is published
+        val = dict(val[3]).get(ENTRY_VPROJ[0])
+        inner = val is not None
+    if root[0] == "obj" and isinstance(root[1], tuple) and root[1] and root[1][0] == "entry" and (whole or inner):
         fr = st.frame
         site = fr.site + ((fr.body.defp, st.bb),)
         ev = ("eff", "MAP.entry_store", (root[1][1], val), ("eff", "MAP.entry_store", walker._site_str(site)), site, "", None, (root[1][1], val))
@@ -71,6 +80,12 @@ class LevelAnalysis:
         if len(self.counter_role) != 3:
             raise AnchorError("the three aggregate accessors do not read three distinct fields")
         self.queue_field = self._field_of_type("OrderQueue")
+        from .queue import QueueAnalysis
+        try:
+            self.vproj = QueueAnalysis(ctx).vproj
+        except AnchorError:
+            self.vproj = None    # the queue's shape is the queue rules' business; the level rules only use its interface
+        ENTRY_VPROJ[0] = self.vproj
         self.stats_field = self._field_of_type("PriceLevelStatistics")
         self.price_field = self._price_field()
         self._cache = {}
@@ -177,9 +192,28 @@ class LevelAnalysis:
         if name not in self._cache:
             b = self.db.bodies[name] if "::" in name else self.db.method("PriceLevel", name)
             w = self.walker()
-            res = w.walk(b)
+            res = [r for r in w.walk(b) if not self.contradicts_map_invariant(r)]
             self._cache[name] = (b, res, w.stats)
         return self._cache[name]
+
+    def contradicts_map_invariant(self, r):
+        """the id map stores every order under its own id (push inserts under order.id(), an in-place update keeps the
+        id: rules P1/Q1 and the in-place same-id rule).  A path that assumes `entry.id != key` for the entry it has just
+        locked with get_mut(key) is infeasible (it is the defensive id guard of an in-place primitive)."""
+        for e in r.trace:
+            if e[0] == "eff" and e[1] == "MAP.get_mut" and r.facts.variant.get(e[3]) == "Some" and len(e) > 7 and len(e[7]) > 1:
+                key = e[7][1]
+                while isinstance(key, tuple) and key and key[0] == "refval":
+                    key = key[1]
+                cur = ("val", entry_of(("field", e[3], "Some", "0")))
+                if self.vproj is not None:
+                    cur = ("field", cur, None, self.vproj)
+                for atom, pol in r.facts.order:
+                    if atom[0] == "eq" and pol is False:
+                        for x, y in ((atom[1], atom[2]), (atom[2], atom[1])):
+                            if y == key and isinstance(x, tuple) and x[0] == "field" and x[1] == cur and x[3] in set(self.R.id_field.values()):
+                                return True
+        return False
 
     # ---- event views
     def counter_events(self, trace):
@@ -226,12 +260,15 @@ class LevelAnalysis:
                 res = e[3]
                 v = facts.variant.get(res)
                 h = ("field", res, "Some", "0")
+                cur = ("val", entry_of(h))
+                if self.vproj is not None:
+                    cur = ("field", cur, None, self.vproj)
                 if v == "Some":
-                    out.append(("rtake", ("val", entry_of(h)), e))
+                    out.append(("rtake", cur, e))
                 elif v == "None":
                     out.append(("miss", None, e))
                 else:
-                    out.append(("take?", ("val", entry_of(h)), e))
+                    out.append(("take?", cur, e))
             elif e[0] == "eff" and e[1] == "MAP.entry_store":
                 out.append(("rpush", e[2][1], e))
             elif e[0] == "eff" and (e[1].startswith("MAP.") or e[1].startswith("TICKET.")) and e[2] and self.self_field(e[2][0]) == self.queue_field:
